@@ -20,11 +20,20 @@
  *                "thread <name>" followed by "<op> <n> <x> <f> <c>" lines, ops:
  *                call rlock runlock sync getdef create setthr setcpu cpu free barrier pause resume createall freeall offline online
  *                "ncpu <k>"  get_possible_cpus_array_len() returns k (scenarios with createall / freeall: one helper per model CPU)
+ *                pub <obj> (old = rcu_xchg_pointer(&gptr, obj)) and qfree (the unpublished object is reclaimed: quarantined)
+ *                "sig <thread>"  C19: the runtime may deliver the signal handler (VRT_SIGS / VRT_SIGAT) to that thread at any of its
+ *                scheduling points between its registration and its unregistration -- in the middle of call_rcu(), of the wfcq
+ *                enqueue, of the lazy creation of the default helper, of the flavor's own rcu_read_lock / rcu_read_unlock.
+ *                The handler does rcu_read_lock(); p = rcu_dereference(gptr); touch *p; rcu_read_unlock() with the flavor of the build.
  *
  * Oracles (independent of the specification): callback invoked twice / never (at quiescence) / with a wrong function or
  * head / while a read-side section open at call_rcu() entry is still open; rcu_barrier() returning before a callback
  * whose call_rcu() had returned when it was called has finished; accesses to freed call_rcu_data / completion / work
  * objects (the library's malloc/calloc/free are interposed: freed objects are quarantined, never reused); double free.
+ * call_rcu() returning with the caller's read-side nesting count changed.
+ * C19: the handler touching a reclaimed object (flag + quarantine); at handler exit the interrupted thread's reader state --
+ * nesting count, rcu_read_ongoing(), inside a section the whole reader word (phase) -- differs from the state at handler entry.
+ * Both states are logged (events sigst) and compared with the specification's by the trace validation.
  */
 #include "vrt_redirect.h"
 #include <stdarg.h>
@@ -179,21 +188,52 @@ int compat_futex_async(int32_t *uaddr, int op, int32_t val, const struct timespe
 #define D_MAXT 32
 static int d_nest[D_MAXT];
 static unsigned long d_cs[D_MAXT], d_ncs[D_MAXT];
+/* the calling thread's reader word as the thread itself sees it (store-buffer aware, no scheduling point, no event) */
+static NS unsigned long d_reader_word(void)
+{
+#if defined(CR_FLAVOR_BP)
+	struct urcu_bp_reader *r = URCU_TLS(urcu_bp_reader);
+	return r ? uv_do_load(&r->ctr, sizeof r->ctr, 0) : 0;
+#else
+	return uv_do_load(&URCU_TLS(rcu_reader).ctr, sizeof URCU_TLS(rcu_reader).ctr, 0);
+#endif
+}
+#if defined(CR_FLAVOR_BP)
+#define D_NEST_MASK URCU_BP_GP_CTR_NEST_MASK
+#elif defined(CR_FLAVOR_QSBR)
+#define D_NEST_MASK 0UL
+#else
+#define D_NEST_MASK URCU_GP_CTR_NEST_MASK
+#endif
+static int d_in_handler[D_MAXT];
+static int d_win[D_MAXT];	/* 1: inside the real rcu_read_lock() of a scenario rlock, 2: inside the real rcu_read_unlock() of a scenario runlock */
+/* the flavor's lock / unlock are library code: an operation of their own for the runtime (plain accesses of the reader word stay
+ * coherent with the software store buffer) -- except inside the handler, which runs inside the interrupted operation */
 static NS void d_read_lock(void)
 {
-	int t = vrt_self();
+	int t = vrt_self(), h = d_in_handler[t];
+	if (!h) { d_win[t] = 1; vrt_op_begin("rcu_read_lock", VP_WAITFREE); }
 	rcu_read_lock();
+	if (!h) { vrt_op_end(); d_win[t] = 0; }
 	if (d_nest[t]++ == 0) d_cs[t] = ++d_ncs[t];
-	vrt_log("\"op\":\"rlock\",\"r\":%d", d_nest[t]);
+	/* inside the handler the nesting count is the flavor's own (it includes the read lock call_rcu() holds internally) */
+	vrt_log("\"op\":\"rlock\",\"r\":%d", d_in_handler[t] ? (int)(d_reader_word() & D_NEST_MASK) : d_nest[t]);
 }
 static NS void d_read_unlock(void)
 {
 	int t = vrt_self();
 	if (--d_nest[t] == 0) d_cs[t] = 0;
-	vrt_log("\"op\":\"runlock\",\"r\":%d", d_nest[t]);
+	vrt_log("\"op\":\"runlock\",\"r\":%d", d_in_handler[t] ? (int)(d_reader_word() & D_NEST_MASK) - 1 : d_nest[t]);
+	if (!d_in_handler[t]) { d_win[t] = 2; vrt_op_begin("rcu_read_unlock", VP_WAITFREE); }
 	rcu_read_unlock();
+	if (!d_in_handler[t]) { vrt_op_end(); d_win[t] = 0; }
 }
 static NS void d_synchronize_rcu(void) { synchronize_rcu(); }
+#else
+static NS unsigned long d_reader_word(void) { int t = vrt_self(); return t >= 0 ? (unsigned long) d_nest[t] : 0; }
+#define D_NEST_MASK (~0UL)
+static int d_in_handler[D_MAXT], d_win[D_MAXT];
+#define rcu_read_ongoing d_read_ongoing
 #endif
 
 /* ------------------------------------------------------------------ scenario program */
@@ -212,6 +252,39 @@ static int re_of[MAXN];			/* callback of node k re-enqueues node re_of[k] (0: no
 static int cnt[MAXN], fin[MAXN], queued[MAXN], entered[MAXN];
 static unsigned long snap[MAXN][D_MAXT];
 static struct call_rcu_data *slots[MAXSLOT];
+
+/* C19: objects published through gptr, the signal handler */
+#define NGOBJ 3
+struct gobj { int val; };
+static struct gobj gobjs[NGOBJ];
+static struct gobj *gptr;
+static int gfreed[NGOBJ];
+static __thread struct gobj *gold;
+static char sig_threads[MAXTHR][16]; static int nsig;
+static NS int sig_thread(const char *name) { for (int i = 0; i < nsig; i++) if (!strcmp(sig_threads[i], name)) return 1; return 0; }
+static NS void sig_handler(void)
+{
+	int t = vrt_self();
+	unsigned long w0 = d_reader_word(), w1; int on0 = !!rcu_read_ongoing(), on1;
+	struct gobj *p;
+	d_in_handler[t]++;
+	vrt_log("\"op\":\"sigst\",\"at\":\"enter\",\"nest\":%lu,\"ongoing\":%d,\"win\":%d", w0 & D_NEST_MASK, on0, d_win[t]);
+	d_read_lock();
+	p = rcu_dereference(gptr);
+	if (p) {
+		if (gfreed[p - gobjs]) vrt_fail("ORACLE use-after-free in signal handler: obj%d touched after it was reclaimed", (int)(p - gobjs));
+		(void) uatomic_load(&p->val);		/* hooked access: the runtime's quarantine check */
+	}
+	d_read_unlock();
+	w1 = d_reader_word(); on1 = !!rcu_read_ongoing();
+	vrt_log("\"op\":\"sigst\",\"at\":\"exit\",\"nest\":%lu,\"ongoing\":%d", w1 & D_NEST_MASK, on1);
+	d_in_handler[t]--;
+	/* nesting and rcu_read_ongoing() exactly as found; inside a section the whole word (its phase) too */
+	if ((w1 & D_NEST_MASK) != (w0 & D_NEST_MASK) || on1 != on0 || ((w0 & D_NEST_MASK) && w1 != w0))
+		vrt_fail("ORACLE signal handler changed the interrupted thread's reader state (reader word %lx -> %lx, rcu_read_ongoing %d -> %d)", w0, w1, on0, on1);
+	if (on0 != !!(w0 & D_NEST_MASK))
+		vrt_fail("ORACLE rcu_read_ongoing() = %d disagrees with the reader's nesting count %lu", on0, w0 & D_NEST_MASK);
+}
 
 /* ------------------------------------------------------------------ recording allocator for the library */
 enum { K_CRDP = 1, K_COMP, K_WORK };
@@ -328,7 +401,10 @@ static NS void do_call_rcu(int k, void (*fn)(struct rcu_head *))
 	for (int i = 0; i < D_MAXT; i++) snap[k][i] = d_cs[i];
 	vrt_log("\"op\":\"call\",\"var\":\"n%d\",\"a\":\"call\"", k);
 	gate_done(g);
+	unsigned long n0 = d_reader_word() & D_NEST_MASK, n1;
 	call_rcu(&objs[k].head, fn);
+	if ((n1 = d_reader_word() & D_NEST_MASK) != n0)
+		vrt_fail("ORACLE call_rcu() changed the caller's read-side nesting count (%lu -> %lu)", n0, n1);
 	g = gate("ret", nm);
 	queued[k] = 1;
 	vrt_log("\"op\":\"ret\",\"r\":\"-\"");
@@ -345,6 +421,7 @@ static NS void *runner(void *arg)
 #ifdef CR_REAL
 	rcu_register_thread();
 #endif
+	if (sig_thread(p->name)) vrt_sig_allow(1);
 	for (int i = 0; i < p->nops; i++) {
 		struct op *o = &p->ops[i]; cur_op = i; char res[40] = "-";
 		if (!strcmp(o->kind, "rlock")) { d_read_lock(); continue; }
@@ -370,6 +447,16 @@ static NS void *runner(void *arg)
 		vrt_op_begin(o->kind, VP_BLOCKING);
 		if (!strcmp(o->kind, "sync")) d_synchronize_rcu();
 		else if (!strcmp(o->kind, "getdef")) (void) get_default_call_rcu_data();
+		else if (!strcmp(o->kind, "pub")) {
+			int k = atoi(o->n + 3); if (k < 0 || k >= NGOBJ) vrt_fail("SCENARIO bad object %s", o->n);
+			gold = rcu_xchg_pointer(&gptr, &gobjs[k]);
+			snprintf(res, sizeof res, "%s", vrt_sym(gold));
+		} else if (!strcmp(o->kind, "qfree")) {
+			if (!gold) vrt_fail("SCENARIO qfree without pub");
+			gfreed[gold - gobjs] = 1;
+			vrt_quarantine(gold, sizeof *gold, gold == &gobjs[0] ? "obj0" : gold == &gobjs[1] ? "obj1" : "obj2");
+			gold = NULL;
+		}
 		else if (!strcmp(o->kind, "create")) {
 			int s = slot_of(o->x); if (s < 0) vrt_fail("SCENARIO bad slot %s", o->x);
 			slots[s] = create_call_rcu_data(o->f, -1);
@@ -399,6 +486,7 @@ static NS void *runner(void *arg)
 		vrt_log("\"op\":\"ret\",\"r\":\"%s\"", res);
 		gate_done(g);
 	}
+	vrt_sig_allow(0);
 #ifdef CR_REAL
 	rcu_unregister_thread();
 #endif
@@ -414,6 +502,7 @@ int main(int argc, char **argv)
 		char a[16], b[16], c[16]; int x, y;
 		if (sscanf(line, "re n%d n%d", &x, &y) == 2) { if (x < 1 || x >= MAXN || y < 1 || y >= MAXN) return 2; re_of[x] = y; continue; }
 		if (sscanf(line, "ncpu %d", &x) == 1) { d_ncpu = x; continue; }
+		if (sscanf(line, "sig %15s", a) == 1) { if (nsig == MAXTHR) return 2; snprintf(sig_threads[nsig++], 16, "%s", a); continue; }
 		if (sscanf(line, "thread %15s", a) == 1) { if (np == MAXTHR) return 2; cur = &P[np]; cur->idx = np++; snprintf(cur->name, sizeof cur->name, "%s", a); continue; }
 		if (!cur || cur->nops == MAXOPS) continue;
 		struct op *op = &cur->ops[cur->nops];
@@ -431,6 +520,13 @@ int main(int argc, char **argv)
 	}
 	vrt_name_val(NULL, "NULL");
 	for (int k = 0; k < MAXN; k++) { objs[k].id = k; vrt_name_val(&objs[k].head, "n%d", k); vrt_name(&objs[k].head.next.next, VK_PTR, "n%d.next", k); }
+	for (int k = 0; k < NGOBJ; k++) vrt_name_val(&gobjs[k], "obj%d", k);
+	gptr = &gobjs[0];
+	vrt_name(&gptr, VK_PTR, "gptr");
+	if (nsig) vrt_set_sighandler(sig_handler);
+	/* CR_WATCH_PLAIN=2 (C19, thorough tier): every compiler-instrumented plain access of the library code inside an operation is a scheduling
+	 * point too, i.e. one more place where the handler can be delivered (the accesses themselves are not part of the specification: projected away) */
+	if (getenv("CR_WATCH_PLAIN")) vrt_watch_plain(atoi(getenv("CR_WATCH_PLAIN")));
 	vrt_name(&default_call_rcu_data, VK_PTR, "dflt");
 	vrt_name(&per_cpu_call_rcu_data, VK_PTR, "pcpu");
 	vrt_name_mutex(&call_rcu_mutex, "call_rcu_mutex"); d_crm = &call_rcu_mutex;
